@@ -34,7 +34,8 @@ Prefix(wdone, wall) == Len(wdone) <= Len(wall) /\ \A i \in DOMAIN wdone : wdone[
 
 Family(opkind) ==
     CASE opkind \in {"Deliver:App", "Deliver:Commit", "Deliver:Proposal", "Deliver:PendingProposal",
-                     "Deliver:IgnoredProposal", "Deliver:Unprocessable", "Deliver:Err", "DeliverOwnPending:Commit"} -> "process"
+                     "Deliver:IgnoredProposal", "Deliver:Unprocessable", "Deliver:Err", "DeliverOwnPending:Commit",
+                     "DeliverOwnLast:App"} -> "process"
       [] opkind = "Merge:Ok" -> "merge"
       [] opkind = "WelcomeProcess:Ok" -> "welcome_process"
       [] opkind \in {"StSnapshot:Ok", "StRelays:Ok", "StRollback:Ok"} -> "tx"
